@@ -39,8 +39,8 @@ AXES_T = AXES_Q + [(-1 / SQ2, 0.0, 1 / SQ2), (0.28, 0.0, -0.96), (2 / 7, -3 / 7,
 ANGLES_Q = [0.0, math.pi / 6, math.pi / 2, math.pi, -math.pi / 3, 2 * math.pi, 1.234, -math.pi / 2, 3 * math.pi / 4, -2.5, 1e-3]
 ANGLES_T = ANGLES_Q + [-math.pi, 3 * math.pi / 2, 5.0, -1e-3, 7 * math.pi / 6]
 TRANSLATIONS = [(0.0, 0.0, 0.0), (1.0, -2.0, 0.5), (100.0, 0.0, -50.0)]
-FACTORS_Q = [-1.0, 0.5, 1.0, 2.0, 3.0]
-FACTORS_T = [-1.0, 0.5, 1.0, 1.5, 2.0, 3.0]
+FACTORS_Q = [-1.0, 0.0, 0.5, 1.0, 2.0, 3.0]  # 0 flattens an axis (no inverse then); negative mirrors
+FACTORS_T = [-1.0, 0.0, 0.5, 1.0, 1.5, 2.0, 3.0]
 ROOTS = [(0.0, 0.0, 0.0), (1.0, 2.0, 3.0), (-120.5, 64.25, 300.0)]
 CENTRES = [None, "root", "soma", "origin"]
 XYZ_AXES = {"rotx": (1.0, 0.0, 0.0), "roty": (0.0, 1.0, 0.0), "rotz": (0.0, 0.0, 1.0)}
